@@ -766,6 +766,13 @@ def download_gunzip_lines(remote):
 
     Returns the lines in the file."""
 
+    return _download_gunzip(remote, True)    # type: ignore
+
+
+def _download_gunzip(remote, text):
+    # type: (str, bool) -> Union[List[str], List[bytes]]
+    """Downloads and gunzips a file; its lines as (UTF-8) text or as bytes."""
+
     # The implementation is rather crude, but it seems that the gzip
     # module needs a real file for input.
 
@@ -778,11 +785,14 @@ def download_gunzip_lines(remote):
     try:
         os.close(handle)
         (filename, _) = urlretrieve(remote, fname)
-        with gzip.open(filename, 'rt', encoding="UTF-8", newline='\n') as gfile:
-            lines = gfile.readlines()
+        if text:
+            with gzip.open(filename, 'rt', encoding="UTF-8",
+                           newline='\n') as gfile:
+                return gfile.readlines()
+        with gzip.open(filename, 'rb') as gfile_b:
+            return gfile_b.readlines()
     finally:
         os.unlink(fname)
-    return lines
 
 
 downloadGunzipLines = function_deprecated_by(download_gunzip_lines)
@@ -925,8 +935,13 @@ def update_file(remote, local, verbose=False):
             patch_contents = download_gunzip_lines(
                 remote + '.diff/' + patch_name + '.gz')
         except UnicodeError:
-            # the patch leads to or from a version that is not UTF-8 text (as
-            # for a local copy that cannot be decoded)
+            # Either the patch leads to or from a version that is not UTF-8
+            # text (as for a local copy that cannot be decoded), or it was
+            # damaged on the way: the hash in the index tells.
+            patch_bytes = _download_gunzip(
+                remote + '.diff/' + patch_name + '.gz', False)
+            if read_lines(patch_bytes) != patch_hashes[patch_name]:
+                raise ValueError("patch %r was garbled" % patch_name)
             if verbose:
                 print("update_file: cannot read patch %r, downloading full file"
                       % patch_name)
